@@ -907,10 +907,16 @@ pub fn eval_condition(value: &str, context: &impl ContextView) -> Result<bool> {
                 "Expected closing '{EXPR_END}': '{value}'"
             )))?;
     }
-    eval_str(value, context)?
-        .parse::<f32>()
-        .map(|v| v != 0.)
-        .map_err(|_| SvgdxError::ParseError(format!("Invalid condition: '{value}'")))
+    // The value itself decides, not its three-decimal rendering: 0.0004 is not zero.
+    let result = tokenize(value).and_then(|tokens| evaluate(tokens, context))?;
+    match result.flatten().as_slice() {
+        [ExprValue::Number(v)] => Ok(*v != 0.),
+        _ => result
+            .to_string()
+            .parse::<f32>()
+            .map(|v| v != 0.)
+            .map_err(|_| SvgdxError::ParseError(format!("Invalid condition: '{value}'"))),
+    }
 }
 
 pub fn eval_list(value: &str, context: &impl ContextView) -> Result<Vec<String>> {
